@@ -635,7 +635,8 @@ def P25(m, R):
     if lp3 is not None:
         apps = [x for x in ast.walk(lp3) if isinstance(x, ast.Call) and call_name(x) == 'append']
         tr3 = next((n for n in lp3.body if isinstance(n, ast.Try)), None)
-        ok = len(apps) == 2 and tr3 is not None and norm(lp3.iter) == 'self._str.split(ansi_sep)' and \
+        skips = [x for x in ast.walk(lp3) if isinstance(x, (ast.Continue, ast.Break))]
+        ok = not skips and len(apps) == 2 and tr3 is not None and norm(lp3.iter) == 'self._str.split(ansi_sep)' and \
             len(tr3.handlers) == 1 and norm(tr3.handlers[0].type) == 'ValueError' and \
             any(call_name(x) == 'append' for x in ast.walk(ast.Module(body=tr3.handlers[0].body, type_ignores=[])) if isinstance(x, ast.Call)) and \
             any(call_name(x) == 'append' for x in ast.walk(ast.Module(body=tr3.orelse or tr3.body, type_ignores=[])) if isinstance(x, ast.Call))
